@@ -318,27 +318,22 @@ func runC37(c *core.Ctx) {
 			}
 			// return false only under v.Type == Stateful && v.Height < height
 			falseS := ir.BoolReturnSinks(f, 0, false)
-			eng.Dominates(c, "C37.gettxpool", f, cmpGuard("attr.Height < height", func(b *ssa.BinOp) (bool, bool) {
-				if isFieldNamed(b.X, "Height") && ir.Strip(b.Y) == ssa.Value(f.Params[2]) {
-					switch b.Op {
-					case token.LSS:
-						return true, true
-					case token.GEQ:
-						return true, false
-					}
-				}
-				return false, false
-			}), falseS, "return false", nil)
+			staleGuard := relGuard("attr.Height < height", func(v ssa.Value) bool { return isFieldNamed(v, "Height") }, func(v ssa.Value) bool { return ir.Strip(v) == ssa.Value(f.Params[2]) }, token.LSS)
+			eng.Dominates(c, "C37.gettxpool", f, staleGuard, falseS, "return false", nil)
 			// and every iteration with a stale stateful attr returns false: from the (Type==Stateful ∧ Height<height) edge the loop header is not re-entered
 			for _, lp := range loops {
 				okStale := false
 				for _, cd := range ir.Conds(f) {
-					b, ok := cd.V.(*ssa.BinOp)
-					if !ok || b.Op != token.LSS || !isFieldNamed(b.X, "Height") {
+					matched, passTrue := staleGuard.G(cd)
+					if !matched {
 						continue
 					}
+					idx := cd.FalseIdx()
+					if passTrue {
+						idx = cd.TrueIdx()
+					}
 					r := ir.NewReach(f)
-					r.RunFromBlock(cd.If.Block().Succs[0])
+					r.RunFromBlock(cd.If.Block().Succs[idx])
 					okStale = !r.BlockEntered(lp.Header)
 					for _, s := range trueS {
 						if r.SinkReachable(s) {
